@@ -67,7 +67,7 @@ def explore_layout(ctx):
         if len(samples) < 4:
             samples.append({'bundle': g, 'code': b, 'model': m})
     cov = {'evaluations': n, 'distinct_nontrivial': len(groups), 'samples': samples, 'bundles': groups,
-           'rule': 'every Bundle type of the harness catalogue (harness/mem.cpp, 11 types incl. nested, double and float): the '
+           'rule': 'every Bundle type of the harness catalogue (harness/mem.cpp, 15 types incl. nested, double and float): the '
                    'constexpr arrays RepSizesPsum/DofsPsum/DimsPsum, PartStart<i>/PartDof<i>, observed part<i>() write offsets',
            'gen_obligations': GEN_OBLIGATIONS, 'gen_obligations_discharged': GEN_OBLIGATIONS}
     return {'coverage': cov, 'findings': findings, 'broken': broken}
